@@ -21,7 +21,7 @@ REQUIRED_THEOREMS = ['CfVerif.C11.' + t for t in (
     'load_never_wrong', 'fetch_after_insert_eq_store', 'downloaded_table_is_dict', 'json_proper_prefix_rejected',
     'truncation_is_miss', 'truncated_file_is_miss', 'missing_file_is_miss', 'unparsable_file_is_miss',
     'crash_then_restart_is_miss', 'miss_starts_download', 'miss_download_completes', 'hit_uses_cache', 'ro_never_written',
-    'init_never_writes_files', 'never_wrong_table', 'collision_counterexample', 'gen_keys', 'gen_decoder', 'gen_encoder', 'gen_fetch_lookup',
+    'init_never_writes_files', 'never_wrong_table', 'tracked_is_last_insert', 'collision_counterexample', 'gen_keys', 'gen_decoder', 'gen_encoder', 'gen_fetch_lookup',
     'gen_fetch_load', 'gen_insert', 'gen_init', 'gen_fetcher', 'gen_crc_is_u32', 'gen_type_strings_valid')]
 TRUSTED = ['harness/corr/c11.py extractor + correspondence',
            "CPython json (C scanner/encoder) behaves as Model/C11 `loads`/`printToc` on the texts explored (validated on every run, not proved)",
@@ -31,7 +31,7 @@ ASSUMPTIONS = ['strings are sequences of Unicode scalar values (device names are
                'tables are dicts of dicts: duplicate-free group names and variable names (Toc.add_element guarantees it; proved)',
                'checksums are 32-bit (unpacked with struct code I; obligation gen_crc_is_u32)',
                "eval() of a '__class__' string other than the two element class names, str() of floats/lists/dicts, truthiness of a "
-               'top-level float, ints beyond 4300 digits, directories named *.json, glob metacharacters or a trailing slash in the '
+               'top-level float, ints beyond 4300 digits, glob metacharacters or a trailing slash in the '
                'cache directory names, and recursion limits are outside the model (driver answers `unmodelled` where it can tell)',
                'torn writes other than truncation (reordered blocks) are outside the model']
 RULE = ('cases = (1) JSON texts: fixed dialect probes + grammar-generated documents (escapes, surrogate pairs, numbers, constants, '
@@ -39,8 +39,8 @@ RULE = ('cases = (1) JSON texts: fixed dialect probes + grammar-generated docume
         '(UTF-8 edge cases), each through the real fetch path and Json.loads; (2) generated tables (identifier, Latin-1, nasty, astral '
         'and `__class__` names; log/param/mixed; boundary idents) through real insert/fetch vs printToc/loads incl. EVERY truncation '
         'offset of every written file; (3) op scripts on temp directory trees: ro/rw/both/none/same/missing/unmakeable, stored, foreign, '
-        'hidden and suffix-colliding names, failing open, cut writes, vanishing files, restarts; (4) TocFetcher with a fake Crazyflie: '
-        'cold, warm, truncated, garbage, other-class file; non-trivial = distinct (kind, text/table/script step)')
+        'hidden and suffix-colliding names, unopenable entries (directory / dangling link / unreadable file carrying a cache file name, at scan time and behind the back of the live cache), failing open, cut writes, vanishing files, restarts; (4) TocFetcher with a fake Crazyflie: '
+        'cold, warm, truncated, garbage, other-class file, and every kind of unusable hit (vanished after the scan, directory, dangling link, unreadable; rw and ro); non-trivial = distinct (kind, text/table/script step)')
 SRC = 'cflib/crazyflie/toccache.py'
 
 
@@ -450,6 +450,8 @@ class Session:
         self.lines = []      # (line, expected reply from the real side, description, nontrivial key)
         self.cache = None
         self.ro = self.rw = None
+        self.noperm = set()     # paths every open() of which raises PermissionError (the checks run as root: produced at the module's `open`)
+        self.base_n = 0
         self.emit('reset', 'ok', None, None)
 
     def close(self):
@@ -469,29 +471,97 @@ class Session:
         with open(path, 'wb') as f:
             f.write(data)
 
+    def ghost_kind(self, path):
+        """directory entries that the scan lists but open() cannot read"""
+        if path in self.noperm:
+            return 'noperm'
+        if os.path.islink(path) and not os.path.exists(path):
+            return 'dangling'
+        if os.path.isdir(path):
+            return 'dir'
+        return None
+
+    def _open(self, name, mode='r', *a, **k):
+        if os.path.abspath(name) in self.noperm:
+            raise PermissionError(13, 'Permission denied', name)
+        return open(name, mode, *a, **k)
+
+    @contextlib.contextmanager
+    def shim(self, opener=None):
+        """the module-level `open` the library calls: permission failures, and optionally a failing / cutting writer"""
+        tc, _, _ = _mods()
+        if opener is None and not self.noperm:
+            yield
+            return
+        tc.open = opener or self._open
+        try:
+            yield
+        finally:
+            del tc.open
+
+    def make_ghost(self, path, kind, live=False):
+        """replace the (possibly absent) entry at `path`; live=True: behind the back of the live cache (the model is told now)"""
+        if os.path.islink(path) or os.path.isfile(path):
+            os.remove(path)
+        self.noperm.discard(path)
+        if kind == 'dir':
+            os.mkdir(path)
+        elif kind == 'dangling':
+            os.makedirs(self.path('gone'), exist_ok=True)
+            os.symlink(self.path('gone', os.path.basename(path) + '.target'), path)
+        elif kind == 'noperm':
+            with open(path, 'wb') as f:
+                f.write(b'{}')
+            self.noperm.add(path)
+        if live:
+            self.emit('ghost %s %s' % (enc(path), kind), 'ok', None, None)
+
+    def canon_files(self):
+        """`_cache_files` with, inside each globbed directory segment, unopenable entries after the files (the model's
+        listing convention; only the relative order of entries ending in the same pattern is observable)"""
+        files = list(self.cache._cache_files)
+        head, tail = files[:self.base_n], files[self.base_n:]
+        out = []
+        for seg in (head[:self.n_ro], head[self.n_ro:]):       # the ro scan, then the rw scan
+            out += [p for p in seg if self.ghost_at_new.get(p) is None] + [p for p in seg if self.ghost_at_new.get(p) is not None]
+        return out + tail
+
     def sync_fs(self, dirs, readonly=False):
         """send the model the current content of `dirs` in the order the OS lists them"""
         self.emit('listing', 'ok', None, None)
         self.emit('readonly %d' % (1 if readonly else 0), 'ok', None, None)
         seen = set()
+        self.ghost_at_scan = {}
         for d in dirs:
             if d is None or d in seen:
                 continue
             seen.add(d)
             if os.path.isdir(d):
                 self.emit('mkdir ' + enc(d), 'ok', None, None)
+                ghosts = []
                 with os.scandir(d) as it:
                     for ent in it:
-                        if ent.is_file():
-                            self.emit('file %s %s' % (enc(d + '/' + ent.name), hexb(open(ent.path, 'rb').read())), 'ok', None, None)
+                        p = d + '/' + ent.name
+                        k = self.ghost_kind(p)
+                        if k is not None:
+                            ghosts.append((p, k))
+                            self.ghost_at_scan[p] = k
+                        elif ent.is_file():
+                            self.emit('file %s %s' % (enc(p), hexb(open(ent.path, 'rb').read())), 'ok', None, None)
+                for p, k in ghosts:
+                    self.emit('ghost %s %s' % (enc(p), k), 'ok', None, None)
 
     def new(self, ro, rw, readonly=False, desc=None):
         tc, _, _ = _mods()
         self.sync_fs([ro, rw], readonly)
         self.ro, self.rw = ro, rw
         try:
+            import glob as _glob
+            self.n_ro = len(_glob.glob(ro + '/*.json')) if ro else 0
             self.cache = tc.TocCache(ro_cache=ro, rw_cache=rw)
-            real = 'ok ' + (','.join(enc(p) for p in self.cache._cache_files) or '-')
+            self.base_n = len(self.cache._cache_files)
+            self.ghost_at_new = dict(self.ghost_at_scan)
+            real = 'ok ' + (','.join(enc(p) for p in self.canon_files()) or '-')
         except Exception:
             self.cache = None
             real = 'exc'
@@ -500,53 +570,48 @@ class Session:
 
     def fetch(self, crc, desc=None, key=None):
         try:
-            real = 'ok ' + canon(self.cache.fetch(crc))
+            with self.shim():
+                real = 'ok ' + canon(self.cache.fetch(crc))
         except Exception as e:      # fetch must not raise; if it does the model ("exc" is never a fetch reply) disagrees
             real = 'raised ' + type(e).__name__
         self.emit('fetch %d' % crc, real, desc or {'op': 'fetch', 'crc': crc}, key)
         return real
 
     def insert(self, crc, toc, desc=None, key=None, fail_open=False):
-        tc, _, _ = _mods()
         if fail_open:
             self.emit('readonly 1', 'ok', None, None)
 
-            def bad_open(name, mode='r', *a, **k):
-                if 'w' in mode:
-                    raise PermissionError(13, 'Permission denied')
-                return open(name, mode, *a, **k)
-            tc.open = bad_open
+        def bad_open(name, mode='r', *a, **k):
+            if 'w' in mode:
+                raise PermissionError(13, 'Permission denied')
+            return self._open(name, mode, *a, **k)
         try:
-            self.cache.insert(crc, toc_real(toc))
+            with self.shim(bad_open if fail_open else None):
+                self.cache.insert(crc, toc_real(toc))
             real = 'ok'
         except Exception as e:
             real = 'raised ' + type(e).__name__
-        finally:
-            if fail_open:
-                del tc.open
         self.emit('insert %d %s' % (crc, toc_spec(toc)), real, desc or {'op': 'insert', 'crc': crc, 'groups': len(toc)}, key)
         if fail_open:
             self.emit('readonly 0', 'ok', None, None)
 
     def insert_cut(self, crc, toc, k, desc=None, key=None):
         """the write is cut after k characters (write raises; the exception is swallowed by insert)"""
-        tc, _, _ = _mods()
-
         def cut_open(name, mode='r', *a, **kw):
-            f = open(name, mode, *a, **kw)
+            f = self._open(name, mode, *a, **kw)
             return CutWriter(f, k) if 'w' in mode else f
-        tc.open = cut_open
         try:
-            self.cache.insert(crc, toc_real(toc))
+            with self.shim(cut_open):
+                self.cache.insert(crc, toc_real(toc))
             real = 'ok'
         except Exception as e:
             real = 'raised ' + type(e).__name__
-        finally:
-            del tc.open
         self.emit('insertcut %d %s %d' % (crc, toc_spec(toc), k), real, desc or {'op': 'insertcut', 'crc': crc, 'k': k}, key)
 
     def cat(self, path, key=None):
         try:
+            if path in self.noperm:
+                raise PermissionError(13, 'Permission denied')
             real = 'ok ' + hexb(open(path, 'rb').read())
         except OSError:
             real = 'none'
@@ -554,7 +619,7 @@ class Session:
         return real
 
     def files(self):
-        self.emit('files', 'ok ' + (','.join(enc(p) for p in self.cache._cache_files) or '-'), {'op': 'files'}, None)
+        self.emit('files', 'ok ' + (','.join(enc(p) for p in self.canon_files()) or '-'), {'op': 'files'}, None)
 
 
 def run_lines(ctx, name, lines):
@@ -792,6 +857,14 @@ def run_fetcher(sess, cls, version, crc, elems, desc, key):
     holder = Toc()
     done = []
     f = TocFetcher(cf, ecls, port, holder, lambda: done.append(1), sess.cache)
+    tc.open = sess._open          # permission failures of unreadable entries (see Session.shim)
+    try:
+        return _run_fetcher_loop(sess, cls, ecls, crc, elems, desc, key, cf, f, holder, done)
+    finally:
+        del tc.open
+
+
+def _run_fetcher_loop(sess, cls, ecls, crc, elems, desc, key, cf, f, holder, done):
     f.start()
     sess.emit('fnew', 'ok', None, None)
     nreq = 0
@@ -939,7 +1012,7 @@ def correspond(ctx):
         batches.append(('TocCache scenario vs model', sess.lines))
 
     # (4) TocFetcher cache paths with a fake Crazyflie
-    for sc in range(60 if thorough else 16):
+    for sc in range(96 if thorough else 32):
         sess = Session(ctx)
         try:
             fetcher_scenario(ctx, sess, rng, sc)
@@ -983,9 +1056,17 @@ def scenario(ctx, sess, rng, types, sc):
             t = table()
             content = dump(t) if rng.random() < 0.75 else rng.choice([b'', b'{', b'[1]', b'null', b'{"a": 1}', dump(t)[:rng.randrange(1, 40)], b'\xff\xfe'])
             sess.put(d + '/' + name, content)
-        if rng.random() < 0.2:
-            os.makedirs(d + '/sub.json', exist_ok=True)        # a directory matching the glob: open() raises IsADirectoryError
-            sess.put(d + '/sub.json/' + stored_name(rng.choice(crcs)), b'{}')
+        if rng.random() < 0.35:
+            # an entry the directory scan lists but open() cannot read: a directory / dangling link / unreadable file with a
+            # cache file's name (no other entry of this directory ends in the same pattern: listing order between an
+            # unopenable entry and a file is not part of the model)
+            gcrc = rng.choice(crcs)
+            for n in os.listdir(d):
+                if n.endswith(stored_name(gcrc)):
+                    os.remove(d + '/' + n)
+            kind = rng.choice(['dir', 'dangling', 'noperm'])
+            sess.make_ghost(d + '/' + stored_name(gcrc), kind)
+            ctx.count('scenario:unopenable-' + kind)
     if mode == 'rw-unmakeable':
         sess.put(sess.path('blocker'), b'x')
         rw = sess.path('blocker', 'rw')
@@ -993,19 +1074,15 @@ def scenario(ctx, sess, rng, types, sc):
     a_rw = {'both': rw, 'rw': rw, 'same': ro, 'rw-missing': rw, 'ro-missing': rw, 'rw-unmakeable': rw}.get(mode)
     if mode == 'none' and rng.random() < 0.5:
         a_ro, a_rw = '', ''
-    if os.path.isdir(ro) and any(os.path.isdir(os.path.join(ro, n)) for n in os.listdir(ro)) or \
-            (a_rw and os.path.isdir(a_rw) and any(os.path.isdir(os.path.join(a_rw, n)) for n in os.listdir(a_rw))):
-        ctx.count('scenario:dir-named-json (outside the model, skipped)')
-        for d in (ro, rw):
-            if os.path.isdir(d + '/sub.json'):
-                shutil.rmtree(d + '/sub.json')
     r = sess.new(a_ro, a_rw, readonly=(mode == 'rw-unmakeable'))
     if r == 'exc':
         ctx.count('new:raised')
         return
-    snapshot = {n: open(os.path.join(ro, n), 'rb').read() for n in os.listdir(ro)} if os.path.isdir(ro) and a_rw != ro else None
+    def snap():
+        return {n: (sess.ghost_kind(ro + '/' + n) or open(os.path.join(ro, n), 'rb').read()) for n in os.listdir(ro)}
+    snapshot = snap() if os.path.isdir(ro) and a_rw != ro else None
     for step in range(rng.randrange(4, 12)):
-        op = rng.choice(['fetch', 'fetch', 'insert', 'insert', 'cut', 'restart', 'fail', 'rmdir', 'vanish', 'fetch-other'])
+        op = rng.choice(['fetch', 'fetch', 'insert', 'insert', 'cut', 'restart', 'fail', 'rmdir', 'vanish', 'block', 'fetch-other'])
         crc = rng.choice(crcs)
         if op == 'fetch':
             sess.fetch(crc, key=('sc-fetch', sc, step, mode))
@@ -1024,24 +1101,40 @@ def scenario(ctx, sess, rng, types, sc):
             sess.insert(crc, table(), fail_open=True, key=('sc-insert-fail', sc, step))
         elif op == 'rmdir' and a_rw and rng.random() < 0.3 and a_rw != ro:
             shutil.rmtree(a_rw, ignore_errors=True)
+            sess.noperm = {q for q in sess.noperm if os.path.dirname(q) != a_rw}
             sess.sync_fs([a_ro, a_rw])
             sess.insert(crc, table(), key=('sc-insert-nodir', sc, step))
             sess.fetch(crc, key=('sc-fetch-nodir', sc, step))
         elif op == 'vanish' and sess.cache._cache_files:
             p = rng.choice(sess.cache._cache_files)
-            if os.path.isfile(p):
+            if os.path.isfile(p) and p not in sess.noperm:
                 os.remove(p)          # (the harness, not the library, removes it: forget it in the ro snapshot)
                 if snapshot is not None and os.path.dirname(p) == ro:
                     snapshot.pop(os.path.basename(p), None)
                 sess.emit('rm ' + enc(p), 'ok', None, None)
             sess.fetch(crc, key=('sc-fetch-vanished', sc, step))
+        elif op == 'block' and sess.cache._cache_files:
+            # behind the back of the live cache the entry becomes a directory / dangling link / unreadable file
+            p = rng.choice(sess.cache._cache_files)
+            if os.path.isfile(p) or os.path.islink(p):
+                kind = rng.choice(['dir', 'dangling', 'noperm'])
+                sess.make_ghost(p, kind, live=True)
+                ctx.count('scenario:blocked-' + kind)
+                if snapshot is not None and os.path.dirname(p) == ro:
+                    snapshot[os.path.basename(p)] = kind
+                m = os.path.basename(p)[-13:-5]
+                try:
+                    sess.fetch(int(m, 16), key=('sc-fetch-blocked', sc, step, kind))
+                except ValueError:
+                    pass
+            sess.fetch(crc, key=('sc-fetch-after-block', sc, step))
         elif op == 'restart':
             if sess.new(a_ro, a_rw) == 'exc':
                 return
         if rng.random() < 0.3:
             sess.files()
     if snapshot is not None:
-        now = {n: open(os.path.join(ro, n), 'rb').read() for n in os.listdir(ro)}
+        now = snap()
         if now != snapshot:
             ctx.disagree('ro directory changed', 'scenario %d' % sc, 'unchanged', sorted(set(now) ^ set(snapshot)))
     for d in (a_ro, a_rw):
@@ -1066,7 +1159,8 @@ def fetcher_scenario(ctx, sess, rng, sc):
         n = min(n, 255)
     elems = device_table(rng, cls, n)
     crc = rng.randrange(2 ** 32)
-    kind = ['miss-then-hit', 'truncated', 'garbage', 'other-class', 'hit-empty-file-table'][sc % 5]
+    kind = ['miss-then-hit', 'truncated', 'garbage', 'other-class', 'vanished', 'dir', 'dangling', 'noperm'][sc % 8]
+    in_ro = kind in ('vanished', 'dir', 'dangling', 'noperm') and (sc // 8) % 2 == 1
     ctx.count('fetcher:' + kind)
     sess.new(None, rw)
     # first connection: nothing cached -> download -> insert
@@ -1081,6 +1175,30 @@ def fetcher_scenario(ctx, sess, rng, sc):
         # the other TOC of the same firmware announces the same CRC: the file is shared
         cls = 'P' if cls == 'L' else 'L'
         elems = device_table(rng, cls, n)
+    if kind in ('vanished', 'dir', 'dangling', 'noperm'):
+        # the entry of the announced checksum is in the cache's list but cannot be opened: the fetcher must download
+        ro2 = None
+        if in_ro:       # the stored file is shipped in a read-only directory instead
+            ro2 = sess.path('ro')
+            sess.mkdir(ro2)
+            os.rename(path, ro2 + '/' + os.path.basename(path))
+            path = ro2 + '/' + os.path.basename(path)
+        if kind == 'vanished':
+            sess.new(ro2, rw)                 # scanned while present ...
+            os.remove(path)                   # ... gone when the checksum is announced (same TocCache object)
+            sess.emit('rm ' + enc(path), 'ok', None, None)
+        else:
+            sess.make_ghost(path, kind)
+            sess.new(ro2, rw)
+        sess.fetch(crc, key=('fetcher-unusable-fetch', kind, in_ro, sc))
+        run_fetcher(sess, cls, version, crc, elems, {'op': 'fetcher-unusable-hit', 'kind': kind, 'ro': in_ro, 'n': n}, ('fetcher-unusable', kind, in_ro, cls, version, n, sc))
+        sess.files()
+        for d in (ro2, rw):
+            if d:
+                for nme in sorted(os.listdir(d)):
+                    if os.path.isfile(d + '/' + nme):
+                        sess.cat(d + '/' + nme)
+        return
     # second connection (new process): new TocCache, new fetcher
     sess.new(None, rw)
     run_fetcher(sess, cls, version, crc, elems, {'op': 'fetcher-2nd', 'kind': kind, 'n': n}, ('fetcher2', kind, cls, version, n, sc))
@@ -1112,6 +1230,125 @@ def is_unparsable(data):
         return False
     except Exception:
         return True
+
+
+UNUSABLE_KINDS = ('vanished', 'unreadable', 'directory', 'dangling-symlink')
+_case_no = [0]
+
+
+def connect_via_fetcher(cache, cls, version, crc, elems):
+    """one connection's TOC fetch of the real TocFetcher against a device table; returns (table, element requests, done)"""
+    tc, L, P = _mods()
+    from cflib.crazyflie.toc import Toc, TocFetcher
+    cf = FakeCF(version, 5 if cls == 'L' else 2, crc, elems)
+    holder, done = Toc(), []
+    TocFetcher(cf, L if cls == 'L' else P, cf.port, holder, lambda: done.append(1), cache).start()
+    reqs = 0
+    while cf.sent and cf.cb is not None:
+        req = cf.sent.pop(0)
+        reqs += req[0] in (0, 2)
+        cf.cb(cf.reply_for(req))
+    return holder.toc, reqs, len(done)
+
+
+def device_want(cls, elems):
+    tc, L, P = _mods()
+    ecls = L if cls == 'L' else P
+    want = {}
+    for idx, (t, g, nm) in enumerate(elems):
+        e = ecls(idx, bytes([t]) + g.encode('latin-1') + b'\0' + nm.encode('latin-1') + b'\0')
+        want.setdefault(g, {})[nm] = elem_fields(e)
+    return want
+
+
+def make_unusable(kind, path):
+    """turn the cache file at `path` into an entry that the directory scan lists but open() cannot read.
+    returns a context manager factory to wrap the calls into the library (only 'unreadable' needs one: the checks run as
+    root, so the permission error is produced at the `open` the module calls)"""
+    tc, _, _ = _mods()
+    if kind == 'vanished':
+        os.remove(path)
+    elif kind == 'directory':
+        os.remove(path)
+        os.mkdir(path)
+    elif kind == 'dangling-symlink':
+        os.remove(path)
+        os.symlink(path + '.gone', path)
+
+    @contextlib.contextmanager
+    def guard():
+        if kind == 'unreadable':
+            def no_read(name, mode='r', *a, **k):
+                if os.path.abspath(name) == os.path.abspath(path) and 'w' not in mode and 'a' not in mode:
+                    raise PermissionError(13, 'Permission denied', name)
+                return open(name, mode, *a, **k)
+            tc.open = no_read
+            try:
+                yield
+            finally:
+                del tc.open
+        else:
+            yield
+    return guard
+
+
+def unusable_hit_case(ctx, rng, root, kind, where, cls, version):
+    tc, L, P = _mods()
+    _case_no[0] += 1
+    base = '%s/u%d' % (root, _case_no[0])
+    ro, rw = base + '/ro', base + '/rw'
+    os.makedirs(ro)
+    os.makedirs(rw)
+    n = rng.choice([1, 2, 3, 5])
+    elems = device_table(rng, cls, n)
+    crc = rng.randrange(2 ** 32)
+    want = device_want(cls, elems)
+    inp = {'kind': kind, 'dir': where, 'cls': cls, 'version': version, 'crc': '%08X' % crc, 'elems': [(t, g, nm) for t, g, nm in elems]}
+    # a first connection stores the table in the chosen directory (for ro: the directory is shipped with that file)
+    try:
+        connect_via_fetcher(tc.TocCache(rw_cache=ro if where == 'ro' else rw), cls, version, crc, elems)
+    except Exception as e:
+        ctx.witness('connection-failed', 'cold TOC fetch raised ' + type(e).__name__, inp)
+        return
+    path = written_path(None, ro if where == 'ro' else rw, crc)
+    if path is None:
+        names = os.listdir(ro if where == 'ro' else rw)
+        if len(names) != 1:
+            return
+        path = os.path.join(ro if where == 'ro' else rw, names[0])
+    if kind == 'vanished':
+        cache = tc.TocCache(ro_cache=ro, rw_cache=rw)      # the directory scan sees the file ...
+        guard = make_unusable(kind, path)                 # ... which is gone when the checksum is announced
+    else:
+        guard = make_unusable(kind, path)
+        cache = tc.TocCache(ro_cache=ro, rw_cache=rw)
+    if path not in cache._cache_files:
+        ctx.count('search:unusable-not-listed')
+    with guard():
+        try:
+            got = cache.fetch(crc)
+        except Exception as e:
+            got = e
+        def fetch_witness():
+            if got is not None:
+                ctx.witness('unusable-hit-not-a-miss', 'fetch() on a cache entry that cannot be opened (%s, %s directory) did not return None: %s'
+                            % (kind, where, type(got).__name__), inp, got=repr(got)[:200])
+        try:
+            toc, reqs, done = connect_via_fetcher(cache, cls, version, crc, elems)
+        except Exception as e:
+            ctx.witness('unusable-hit-connection-failed', 'the TOC fetch raised %s when the cache entry of the announced checksum cannot be opened '
+                        '(%s, %s directory): nothing is downloaded and the connection never completes' % (type(e).__name__, kind, where), inp)
+            fetch_witness()
+            return
+        fetch_witness()
+    if done != 1 or reqs != n or table_fields(toc) != want:
+        ctx.witness('unusable-hit-not-downloaded', 'with an unopenable cache entry (%s, %s directory) the table was not downloaded from the device '
+                    '(done=%d, element requests=%d of %d)' % (kind, where, done, reqs, n), inp, got=str(table_fields(toc))[:300], want=str(want)[:300])
+        return
+    ctx.count('search:unusable-hit:' + kind + ':' + where)
+    # the read-only directory must look the same afterwards (entry kinds and names)
+    if where == 'ro' and sorted(os.listdir(ro)) != [os.path.basename(path)] * (0 if kind == 'vanished' else 1):
+        ctx.witness('ro-written', 'the read-only cache directory changed while handling an unusable entry', inp, now=sorted(os.listdir(ro)))
 
 
 def search(ctx):
@@ -1302,6 +1539,16 @@ def search(ctx):
                     ctx.witness('fetcher-requests', 'phase %s: %d element requests, expected %d' % (phase, reqs, expect_reqs), {'cls': cls, 'n': n, 'phase': phase})
                     break
                 ctx.count('search:fetcher-' + phase)
+        # (g1) EVERY kind of unusable hit, through the real TocFetcher: the checksum's file is in the cache's file list but
+        #      cannot be opened when the device announces it - vanished after the directory scan, unreadable, a directory or a
+        #      dangling symlink with the file's name; in the ro and in the rw directory; log and param; protocol V1 and V2.
+        #      Required: fetch() returns None without raising, the fetcher downloads all elements and completes with the
+        #      device's table.
+        for kind in UNUSABLE_KINDS:
+            for where in ('ro', 'rw'):
+                for cls in 'LP':
+                    for version in (4, 3):
+                        unusable_hit_case(ctx, rng, root, kind, where, cls, version)
         # (g2) histories (twin of never_wrong_table): completed inserts, inserts cut at any byte, restarts; afterwards every
         #      checksum yields None or the table LAST written under it - and None when that last write was cut
         for trial in range(60 if thorough else 15):
